@@ -449,12 +449,21 @@ func c19Inheritance(p *Prog, r *Report) {
 			continue
 		}
 		ok := false
+		exact := false
+		guards := ""
 		for _, e := range f.All() {
 			if e.Kind == "call" && strings.HasSuffix(e.What, ".SetOption") && len(e.Args) >= 3 && e.Args[1] == `"MAX-RCV-SIZE"` && strings.HasSuffix(e.Args[2], "maxRxSize") {
 				ok = true
+				guards = strings.Join(e.Guard, "; ")
+				for _, g := range e.Guard {
+					if strings.HasPrefix(g, "!") && strings.HasSuffix(g, `["MAX-RCV-SIZE"]#1`) {
+						exact = true
+					}
+				}
 			}
 		}
 		r.Check(ok, R, nm+"/max-recv-size", f.Pos(), "the socket's MaxRecvSize is applied to the new endpoint", nm+" does not apply the socket's MaxRecvSize to the new endpoint")
+		r.Check(!ok || exact, R, nm+"/max-recv-size-unless-given", f.Pos(), "applied exactly when the options given to the call do not set it themselves", nm+" does not decide by looking MAX-RCV-SIZE up in the options it was given whether the endpoint inherits the socket's receive limit: an endpoint created with some other option loses the limit (guards: "+guards+")")
 	}
 	_ = token.ADD
 }
@@ -845,3 +854,40 @@ func gatedOptionFlags(p *Prog, r *Report, R string) {
 }
 
 var recvFieldRe = regexp.MustCompile(`recv\.[A-Za-z_][A-Za-z0-9_]*`)
+
+// wsCheckOriginBothWays: the websocket listener's origin check follows the option in both
+// directions: turning it off installs the accept-all function, turning it (back) on restores
+// the default.  A setter that only acts on one value leaves the effect of the other value in
+// place when the option is changed a second time (GetOption then reports a check that is off).
+func wsCheckOriginBothWays(p *Prog, r *Report, R string) {
+	r.Describe(R, "an option whose value switches a behaviour on and off applies both values: WEBSOCKET-CHECKORIGIN true restores the upgrader's default check, false installs the accept-all function")
+	q := NewQ(p, r)
+	f := q.Fn(R, "transport/ws", "listener", "SetOption")
+	if !f.OK() {
+		return
+	}
+	var on, off Sel
+	for _, e := range f.All() {
+		if e.Kind != "store" || !strings.HasSuffix(e.What, ".ug.CheckOrigin") {
+			continue
+		}
+		pos, neg := false, false
+		for _, g := range e.Guard {
+			if strings.HasSuffix(g, ".(bool)?#0") {
+				if strings.HasPrefix(g, "!") {
+					neg = true
+				} else {
+					pos = true
+				}
+			}
+		}
+		switch {
+		case e.Args[0] == "nil" && pos && !neg:
+			on = append(on, e)
+		case e.Args[0] != "nil" && neg && !pos:
+			off = append(off, e)
+		}
+	}
+	r.Check(len(off) >= 1, R, "ws.CheckOrigin/false-installs-accept-all", f.Pos(), "false: accept-all installed", "setting WEBSOCKET-CHECKORIGIN to false does not install the accept-all origin function")
+	r.Check(len(on) >= 1, R, "ws.CheckOrigin/true-restores-default", f.Pos(), "true: default check restored (CheckOrigin = nil)", "setting WEBSOCKET-CHECKORIGIN (back) to true does not restore the upgrader's default origin check: after false-then-true the option reads true while every origin is still accepted")
+}
